@@ -149,3 +149,61 @@ package hdkeychain
 //@   assert after pubKeyBytes#1: $arg0 == k
 //@   assert after Hash160#1: sameobj($arg0, $ret_pubKeyBytes#1) && len($arg0) == len($ret_pubKeyBytes#1) && $arg0.off == $ret_pubKeyBytes#1.off
 //@   assert after NewAddressPubKeyHash#1: sameobj($arg0, $ret_Hash160#1) && len($arg0) == len($ret_Hash160#1) && $arg1 == net
+
+//@ lemmafunc hdkeychain.lemmaKeyRoundTrip
+//@   requires k != nil && len(k.key) > 0 && len(k.version) == 4 && len(k.parentFP) == 4 && len(k.chainCode) == 32
+//@   requires k.isPrivate ==> len(k.key) <= 32 && 0 < big.be(k.key, len(k.key)) && big.be(k.key, len(k.key)) < 115792089237316195423570985008687907852837564279074904382605163141518161494337
+//@   requires !k.isPrivate ==> len(k.key) == 33 && ec.validpub(k.key, 33)
+//@   inlines hdkeychain.(*ExtendedKey).String, hdkeychain.NewKeyFromString
+//@   opaque big.be, big.beo
+//@   bind after String/DoubleHashB#1: $a = $arg0
+//@   bind after String/DoubleHashB#1: $h = $ret
+//@   assert after String/DoubleHashB#1: (forall j :: 0 <= j && j < 4 ==> $a[j] == k.version[j]) && $a[4] == k.depth && (forall j :: 0 <= j && j < 4 ==> $a[5 + j] == k.parentFP[j])
+//@   assert after String/DoubleHashB#1: forall j :: 0 <= j && j < 32 ==> $a[13 + j] == k.chainCode[j]
+//@   bind after String/Encode#1: $b = $arg0
+//@   assert after NewKeyFromString/Decode#1: len($ret) == len($b) && forall j :: 0 <= j && j < len($b) ==> $ret[j] == $b[j]
+//@   assert after String/Encode#1: len($b) == 82 && len($a) == 78
+//@   assert after String/Encode#1: forall j :: 0 <= j && j < 78 ==> $a[j] == $b[j]
+//@   assert after String/Encode#1: forall j :: 0 <= j && j < 4 ==> $b[78 + j] == $h[j]
+//@   assert after NewKeyFromString/DoubleHashB#1: lemma dsha_ext($arg0, len($arg0), $a, len($a))
+//@   assert after NewKeyFromString/DoubleHashB#1: forall j :: 0 <= j && j < 4 ==> $ret[j] == $b[78 + j]
+//@   assert after NewKeyFromString/Equal#1: $ret
+//@   assert after NewKeyFromString/Decode#1: lemma ec_validpub_fmt(k.key, 33)
+//@   assert after NewKeyFromString/Decode#1: k.isPrivate == ($b[45] == 0)
+//@   bind after NewKeyFromString/SetBytes#1: $x = $arg1
+//@   assert after NewKeyFromString/SetBytes#1: k.isPrivate
+//@   assert after NewKeyFromString/SetBytes#1: len($x) == 32 && (forall j :: 0 <= j && j < 32 ==> $x[j] == $b[46 + j])
+//@   assert after NewKeyFromString/SetBytes#1: (forall j :: 0 <= j && j < 32 - len(k.key) ==> $x[j] == 0) && (forall j :: 0 <= j && j < len(k.key) ==> $x[32 - len(k.key) + j] == k.key[j])
+//@   assert after NewKeyFromString/SetBytes#1: lemma be_strip($x, 32 - len(k.key), len(k.key))
+//@   assert after NewKeyFromString/SetBytes#1: lemma beo_ext($x, 32 - len(k.key), len(k.key), k.key, 0, len(k.key))
+//@   assert after NewKeyFromString/SetBytes#1: lemma beo_is_be(k.key, len(k.key))
+//@   assert after NewKeyFromString/SetBytes#1: big.be($x, 32) == big.be(k.key, len(k.key))
+//@   assert after NewKeyFromString/ParsePubKey#1: !k.isPrivate && len($arg0) == 33 && (forall j :: 0 <= j && j < 33 ==> $arg0[j] == k.key[j])
+//@   assert after NewKeyFromString/ParsePubKey#1: lemma ec_validpub_ext($arg0, len($arg0), k.key, 33)
+//@   assert after NewKeyFromString/ParsePubKey#1: $ret1 == nil
+//@   assert after NewKeyFromString/NewExtendedKey#1: len($arg0) == 4 && (forall j :: 0 <= j && j < 4 ==> $arg0[j] == $b[j]) && len($arg3) == 4 && (forall j :: 0 <= j && j < 4 ==> $arg3[j] == $b[5 + j]) && len($arg2) == 32 && (forall j :: 0 <= j && j < 32 ==> $arg2[j] == $b[13 + j])
+//@   assert after NewKeyFromString/NewExtendedKey#1: $arg4 == $b[4] && $arg6 == ($b[45] == 0)
+//@   assert after NewKeyFromString/NewExtendedKey#1: $arg5 == k.childNum
+//@   assert after NewKeyFromString/NewExtendedKey#1: (k.isPrivate ==> len($arg1) == 32 && forall j :: 0 <= j && j < 32 ==> $arg1[j] == $b[46 + j]) && (!k.isPrivate ==> len($arg1) == 33 && forall j :: 0 <= j && j < 33 ==> $arg1[j] == $b[45 + j])
+//@   assert after NewKeyFromString#1: $ret1 == nil && $ret0 != nil
+//@   bind after NewKeyFromString/NewExtendedKey#1: $n = $ret
+//@   assert after NewKeyFromString/NewExtendedKey#1: $ret.isPrivate == k.isPrivate && $ret.depth == k.depth && $ret.childNum == k.childNum
+//@   assert after NewKeyFromString/NewExtendedKey#1: forall j :: 0 <= j && j < 45 ==> $b[j] == $a[j]
+//@   assert after NewKeyFromString/NewExtendedKey#1: (forall j :: 0 <= j && j < 4 ==> $b[j] == k.version[j]) && (forall j :: 0 <= j && j < 4 ==> $b[5 + j] == k.parentFP[j]) && (forall j :: 0 <= j && j < 32 ==> $b[13 + j] == k.chainCode[j])
+//@   assert after NewKeyFromString/NewExtendedKey#1: (forall j :: 0 <= j && j < 4 ==> $arg0[j] == k.version[j]) && (forall j :: 0 <= j && j < 4 ==> $arg3[j] == k.parentFP[j]) && (forall j :: 0 <= j && j < 32 ==> $arg2[j] == k.chainCode[j])
+//@   assert after NewKeyFromString/NewExtendedKey#1: k.isPrivate ==> (forall j :: 0 <= j && j < 32 - len(k.key) ==> $arg1[j] == 0) && (forall j :: 0 <= j && j < len(k.key) ==> $arg1[32 - len(k.key) + j] == k.key[j])
+//@   assert after NewKeyFromString/NewExtendedKey#1 as V1: forall j :: 0 <= j && j < 4 ==> $arg0[j] == k.version[j]
+//@   assert after NewKeyFromString/NewExtendedKey#1 as V2: len($ret.version) == 4 && forall j :: 0 <= j && j < 4 ==> $ret.version[j] == $arg0[j]
+//@   assert after NewKeyFromString/NewExtendedKey#1 from V1, V2: len($ret.version) == 4 && forall j :: 0 <= j && j < 4 ==> $ret.version[j] == k.version[j]
+//@   assert after NewKeyFromString/NewExtendedKey#1 as F1: forall j :: 0 <= j && j < 4 ==> $arg3[j] == k.parentFP[j]
+//@   assert after NewKeyFromString/NewExtendedKey#1 as F2: len($ret.parentFP) == 4 && forall j :: 0 <= j && j < 4 ==> $ret.parentFP[j] == $arg3[j]
+//@   assert after NewKeyFromString/NewExtendedKey#1 from F1, F2: len($ret.parentFP) == 4 && forall j :: 0 <= j && j < 4 ==> $ret.parentFP[j] == k.parentFP[j]
+//@   assert after NewKeyFromString/NewExtendedKey#1 as C1: forall j :: 0 <= j && j < 32 ==> $arg2[j] == k.chainCode[j]
+//@   assert after NewKeyFromString/NewExtendedKey#1 as C2: len($ret.chainCode) == 32 && forall j :: 0 <= j && j < 32 ==> $ret.chainCode[j] == $arg2[j]
+//@   assert after NewKeyFromString/NewExtendedKey#1 from C1, C2: len($ret.chainCode) == 32 && forall j :: 0 <= j && j < 32 ==> $ret.chainCode[j] == k.chainCode[j]
+//@   assert after NewKeyFromString/NewExtendedKey#1: !k.isPrivate ==> len($ret.key) == 33 && forall j :: 0 <= j && j < 33 ==> $ret.key[j] == k.key[j]
+//@   assert after NewKeyFromString/NewExtendedKey#1 as K1: k.isPrivate ==> (forall j :: 0 <= j && j < 32 - len(k.key) ==> $arg1[j] == 0) && (forall j :: 0 <= j && j < len(k.key) ==> $arg1[32 - len(k.key) + j] == k.key[j])
+//@   assert after NewKeyFromString/NewExtendedKey#1 as K2: len($ret.key) == len($arg1) && forall j :: 0 <= j && j < len($arg1) ==> $ret.key[j] == $arg1[j]
+//@   assert after NewKeyFromString/NewExtendedKey#1 as K3: k.isPrivate ==> len($arg1) == 32 && len(k.key) <= 32 && len(k.key) >= 0
+//@   assert after NewKeyFromString/NewExtendedKey#1 from K1, K2, K3: k.isPrivate ==> len($ret.key) == 32 && (forall j :: 0 <= j && j < 32 - len(k.key) ==> $ret.key[j] == 0) && (forall j :: 0 <= j && j < len(k.key) ==> $ret.key[32 - len(k.key) + j] == k.key[j])
+//@   assert after NewKeyFromString#1: $ret0 == $n
